@@ -362,7 +362,7 @@ func Run(c Case) pbt.Outcome {
 var specStruct = pbt.Register(&pbt.Spec[Case]{
 	Property: "C02", Name: "C02.struct",
 	Rule: "structured orders: every n in 1..64 x insertion pattern {asc,desc,zigzag,midout,organ,lcg} x deletion pattern {asc,desc,zigzag,midout,lcg,root-first}, " +
-		"checked after every op (thorough adds n in {100,255,256,257,511,1000,1023,1024,4096}, checked after every op up to 300 elements and at geometric checkpoints above); " + rule,
+		"checked after every op; n in {257,1025,4097} x 3 pattern pairs at geometric checkpoints (thorough adds n in {100,255,256,257,511,1000,1023,1024,4096}, checked after every op up to 300 elements and at geometric checkpoints above); " + rule,
 	Enum: func(shard, shards int, tier string, yield func(Case) bool) {
 		k := 0
 		for n := 1; n <= 64; n++ {
@@ -375,6 +375,18 @@ var specStruct = pbt.Register(&pbt.Spec[Case]{
 					if !yield(Case{N: n, Ins: ins, Del: del}) {
 						return
 					}
+				}
+			}
+		}
+		// a few big ones in every tier (size thresholds), checked at geometric checkpoints above 64 elements
+		for _, n := range []int{257, 1025, 4097} {
+			for _, pat := range [][2]string{{"asc", "midout"}, {"lcg", "lcg"}, {"zigzag", "root"}} {
+				k++
+				if k%shards != shard {
+					continue
+				}
+				if !yield(Case{N: n, Ins: pat[0], Del: pat[1], Every: 64}) {
+					return
 				}
 			}
 		}
